@@ -140,6 +140,8 @@ fn create_storage_impl(path: &str) -> std::io::Result<StorageImpl> {
 pub(crate) struct SharedMmap {
     storage: StorageImpl,
     last_touched_at: AtomicU64,
+    #[cfg(walrus_verif)]
+    verif_path: String,
 }
 
 // SAFETY: `SharedMmap` provides interior mutability only via methods that
@@ -158,9 +160,20 @@ impl SharedMmap {
             .duration_since(SystemTime::UNIX_EPOCH)
             .unwrap_or_else(|_| std::time::Duration::from_secs(0))
             .as_millis() as u64;
+        #[cfg(walrus_verif)]
+        crate::wal::verif_hooks::trace(|| {
+            format!(
+                "open {} osync={} backend={}",
+                path,
+                (USE_FD_BACKEND.load(Ordering::Relaxed) && should_use_o_sync()) as u8,
+                if USE_FD_BACKEND.load(Ordering::Relaxed) { "fd" } else { "mmap" }
+            )
+        });
         Ok(Arc::new(Self {
             storage,
             last_touched_at: AtomicU64::new(now_ms),
+            #[cfg(walrus_verif)]
+            verif_path: path.to_string(),
         }))
     }
 
@@ -173,6 +186,8 @@ impl SharedMmap {
             // fail mode: the write is dropped (the FD backend ignores `pwrite` errors as well)
             return;
         }
+        #[cfg(walrus_verif)]
+        crate::wal::verif_hooks::trace(|| format!("swrite {} {} {}", self.verif_path, offset, data.len()));
 
         self.storage.write(offset, data);
 
@@ -194,6 +209,8 @@ impl SharedMmap {
     }
 
     pub(crate) fn flush(&self) -> std::io::Result<()> {
+        #[cfg(walrus_verif)]
+        crate::wal::verif_hooks::trace(|| format!("syncfile {}", self.verif_path));
         self.storage.flush()
     }
 
